@@ -62,6 +62,9 @@ def resolve_names(node):
         if isinstance(node.ctx, ast.Store) and isinstance(node.namespace, ast.ClassDef):
             binding.disallow_rename()
 
+            # Until it is assigned in the class body, the name is looked up in the module namespace
+            get_binding(node.id, get_global_namespace(node)).disallow_rename()
+
     elif isinstance(node, ast.ClassDef) and node.name in node.namespace.nonlocal_names:
         binding = get_binding_disallow_class_namespace_rename(node.name, node.namespace)
         binding.add_reference(node)
